@@ -37,39 +37,58 @@ ASSUMPTIONS = [
 ]
 
 
-def _closure_name_alias(f, depth=0):
-    """the (name, alias) pair an item_property closure was created with, wherever in its nest of closures it is captured
-    (not tied to the name of the helper that picks the key)"""
-    try:
-        nl = inspect.getclosurevars(f).nonlocals
-    except TypeError:
-        return None
-    if "name" in nl:
-        return {"name": nl.get("name"), "alias": nl.get("alias")}
-    if depth < 3:
-        for v in nl.values():
-            if inspect.isfunction(v):
-                r = _closure_name_alias(v, depth + 1)
-                if r is not None:
-                    return r
-    return None
+def _class_body_declarations(k):
+    """`attr = item_property("NAME"[, alias="ALIAS"])` statements in the body of class k, read from the source of the tree
+    under check: what the class declares, whatever item_property builds from it (a property, a hand-written descriptor)"""
+    import ast
+    from pyvc.source import repo
+    from pyvc.execu import Unsupported
+    tree = repo().modules.get(k.__module__)
+    if tree is None:
+        return []
+    node = next((n for n in ast.walk(tree) if isinstance(n, ast.ClassDef) and n.name == k.__name__), None)
+    if node is None:
+        return []
+    out = []
+    for st in node.body:
+        if not (isinstance(st, ast.Assign) and isinstance(st.value, ast.Call)):
+            continue
+        f = st.value.func
+        fname = f.id if isinstance(f, ast.Name) else f.attr if isinstance(f, ast.Attribute) else None
+        if fname != "item_property":
+            continue
+        call = st.value
+        try:
+            args = [ast.literal_eval(a) for a in call.args]
+            kw = {x.arg: ast.literal_eval(x.value) for x in call.keywords}
+        except Exception:
+            raise Unsupported(f"{k.__name__}: an item_property declaration whose arguments are not literals")
+        name = args[0] if args else kw.get("name")
+        alias = args[1] if len(args) > 1 else kw.get("alias")
+        for t in st.targets:
+            if isinstance(t, ast.Name):
+                out.append((t.id, name, alias))
+    return out
 
 
 def declarations(cls):
-    """(attr, name, alias) for every item_property declared on cls or its bases, read from the real class."""
+    """(attr, name, alias) for every item_property declared on cls or its bases (the nearest declaration of an attribute wins,
+    as in attribute lookup), read from the class bodies of the tree under check."""
+    from pyvc.execu import Unsupported
     out = []
     seen = set()
     for k in cls.__mro__:
-        for attr, raw in k.__dict__.items():
-            if attr in seen or not isinstance(raw, property) or raw.fget is None:
+        if not getattr(k, "__module__", "").startswith("simfile"):
+            continue
+        for attr, name, alias in _class_body_declarations(k):
+            if attr in seen:
                 continue
-            if raw.fget.__code__.co_filename.endswith("_private/property.py"):
-                nv = _closure_name_alias(raw.fget)
-                if nv is None:
-                    continue
-                out.append((attr, nv.get("name"), nv.get("alias")))
-                seen.add(attr)
-    return sorted(out)
+            seen.add(attr)
+            if k.__dict__.get(attr) is None:
+                raise Unsupported(f"{k.__name__}.{attr} is declared as an item_property in the source but the class does not have it")
+            out.append((attr, name, alias))
+        seen.update(a for a in k.__dict__ if not a.startswith("__"))     # anything else of that name shadows a base's declaration
+    return sorted(out, key=lambda d: (d[0], d[1] or "", d[2] or ""))
 
 
 def _classes():
@@ -138,11 +157,7 @@ class Accessor(Unit):
                 ex.setattr(obj, attr, v)
                 ex.prove("setter:post:map", O.map_of(obj) == O.om_set(m0, key, OSTR.some(v.t)))
             else:
-                from pyvc.execu import Frame
-                # `del obj.attr`
-                owner, raw = ex.class_attr(self.cls, attr)
-                clo = ex.wrap_real(raw.fdel, owner)
-                ex.call_closure(clo, [obj], {})
+                ex.delattr(obj, attr)       # `del obj.attr`: the property's deleter, or the descriptor's __delete__
                 if is_smchart:
                     ex.prove("deleter:post:refused", False, "SM chart: removing a key must be refused")
                 else:
